@@ -371,6 +371,8 @@ class Exec(Engine):
     def annotation_type(self, a):
         """Type of a local from its source annotation (`x: OrderedSet[Task] = ...`); None when not understood."""
         try:
+            if isinstance(a, ast.Name) and self.cur is not None and a.id in self.cur.annot:
+                return parse_type(self.cur.annot[a.id])
             if isinstance(a, ast.Name):
                 if a.id in self.ANNOT_SCALAR:
                     return self.ANNOT_SCALAR[a.id]
@@ -382,6 +384,8 @@ class Exec(Engine):
                 nm = a.value.id
                 if nm in self.ANNOT_COLL:
                     e = self.annotation_type(a.slice)
+                    if e is not None and nm == 'OrderedSet' and e == U('Inst'):
+                        return T('set', (e,), 'byvalue')      # an OrderedSet of task objects compares them by value
                     return T(self.ANNOT_COLL[nm], (e,)) if e is not None else None
                 if nm in ('dict', 'Dict') and isinstance(a.slice, ast.Tuple):
                     k, v = [self.annotation_type(x) for x in a.slice.elts]
@@ -629,6 +633,13 @@ class Exec(Engine):
         return outs + self.assign_to(tgt.value, newb, st, line)
 
     def st_If(self, s, st):
+        if self.cur is not None and self.cur.assume_unreachable and ast.unparse(s.test) in self.cur.assume_unreachable:
+            ev = Evaluator(self, st)
+            c = self.truth(ev.ev(s.test))
+            outs = self.settle(st, ev, s.lineno)
+            st.assume(z3.Not(c))
+            self.trusted_uses[f'assumed unreachable in {self.cur_fkey}: `if {ast.unparse(s.test)}`'] = 1
+            return outs + (self.exec_block(s.orelse, st) if s.orelse else [Outcome('next', st)])
         ev = Evaluator(self, st)
         c = self.truth(ev.ev(s.test))
         outs = self.settle(st, ev, s.lineno)
@@ -978,7 +989,13 @@ class Exec(Engine):
             recv = SV(t, ctx.empty_set(x0.t))
         if t.k in ('set', 'list'):
             et = t.args[0]
-            if m in ('add', 'append'):
+            if m in ('add', 'append') and t.name == 'byvalue':
+                # OrderedSet.add on task objects: `values[item] = item` keeps the FIRST object stored under an equal key
+                x = self.coerce(ev.ev(n.args[0]), et)
+                valf = ctx.func('Inst_to_Task', [U('Inst')], U('Task'))
+                present = ctx.exists([et], lambda y: z3.And(z3.Select(recv.z, y), valf(y) == valf(x.z)))
+                new = SV(t, z3.If(present, recv.z, z3.Store(recv.z, x.z, True)))
+            elif m in ('add', 'append'):
                 x = self.coerce(ev.ev(n.args[0]), et)
                 if t.name in ('deque', 'ulist'):
                     # the duplicate-free abstraction of a deque is only valid if the appended element is new
@@ -1395,6 +1412,12 @@ class Exec(Engine):
         binds = dict(self.entry_binds)
         # candidates may mention parameters, fields, ghosts, old(), __done__ and __ret__ only
         binds.update(binds_extra)
+        ds = getattr(st, 'done_stack', [])
+        if '__done__' in binds_extra:
+            if ds:
+                binds['__done_outer__'] = ds[-1]
+        elif ds:
+            binds['__done_outer__'] = ds[-1]
         if self.ret_local and st.has(self.ret_local):
             binds['__ret__'] = st.get(self.ret_local)
         for name in getattr(self.cur, 'cand_locals', ()):
@@ -1515,6 +1538,7 @@ class Exec(Engine):
                     h.set(k, v)
                 if not self.feasible(h):
                     break
+                h.done_stack = list(getattr(st, 'done_stack', [])) + [SV(SET(dom_t), done)]
                 self.trial += 1
                 saved = self.loop_counter
                 try:
@@ -1526,6 +1550,7 @@ class Exec(Engine):
                 for bo in body_outs:
                     if bo.kind not in ('next', 'continue'):
                         continue
+                    bo.st.done_stack = list(getattr(st, 'done_stack', []))
                     f2 = self.eval_candidates(bo.st, pool, {'__done__': SV(SET(dom_t), done2)})
                     for l in list(active):
                         if l not in f2:
@@ -1557,10 +1582,12 @@ class Exec(Engine):
             h.assume(z3.Not(z3.Select(done, x)))
         for k, v in bind_fn(x).items():
             h.set(k, v)
+        h.done_stack = list(getattr(st, 'done_stack', [])) + [SV(SET(dom_t), done)]
         if self.feasible(h):
             done2 = z3.Store(done, x, True)
             for bo in self.exec_block(s.body, h):
                 if bo.kind in ('next', 'continue'):
+                    bo.st.done_stack = list(getattr(st, 'done_stack', []))
                     f2 = self.eval_candidates(bo.st, pool, {'__done__': SV(SET(dom_t), done2)})
                     for l in active:
                         if l in f2:
